@@ -8,7 +8,7 @@
    Argument order: qnmatch name pattern, as in the source. *)
 From Coq Require Import NArith List Bool.
 From PydoctorVerif Require Import Base.Sexp Spec.ReFrag Spec.Glob Spec.PrivacySpec Model.QnMatch Model.Privacy
-  Proofs.QnMatchProofs Proofs.PrivacyProofs.
+  Proofs.QnMatchProofs Proofs.ReFragProofs Proofs.PrivacyProofs.
 Import ListNotations.
 Local Open Scope N_scope.
 
@@ -25,6 +25,48 @@ Proof. exact qnmatch_meaning. Qed.
 Theorem C13_meaning_is_relational :
   forall (p n : text), matches p n = true <-> Matches (lex p) n.
 Proof. exact (fun p n => gmatch_Matches (lex p) n). Qed.
+
+(* The executable matcher of Spec/ReFrag.v is not trusted: it decides the declarative language of the fragment
+   (Spec.ReFrag.matches_re: one character per class, k*? any run of the class, concatenation, end anchor). *)
+Theorem C13_matcher_decides :
+  forall (r : regex) (n : text), match_items r n = true <-> matches_re r n.
+Proof. exact match_items_spec. Qed.
+
+(* a backtracking-free matcher (one pass per regex item over a table of suffixes) decides it too *)
+Theorem C13_linear_matcher_decides :
+  forall (r : regex) (n : text), match_linear r n = match_items r n /\ (match_linear r n = true <-> matches_re r n).
+Proof. exact (fun r n => conj (match_linear_spec r n) (match_linear_decides r n)). Qed.
+
+Theorem C13_class_decides :
+  forall (k : cls) (x : N), cls_match k x = true <-> in_cls k x.
+Proof. exact cls_match_spec. Qed.
+
+(* C13_translate_meaning with relations on both sides: the regex that re.compile reads from translate(p) accepts
+   exactly the names the manual says p matches, and qnmatch answers accordingly *)
+Theorem C13_translate_meaning_declarative :
+  forall p, wf_pattern p = true ->
+    exists re, compile_pattern p = Ok re /\
+               forall n, (qnmatch n p = Ok true <-> matches_re re n) /\
+                         (qnmatch n p = Ok false <-> ~ matches_re re n) /\
+                         (matches_re re n <-> Matches (lex p) n).
+Proof. exact meaning_declarative. Qed.
+
+(* The manual's examples, on the real pipeline, for every name and every literal prefix (a text without * ? [ ):
+   a literal pattern matches exactly its own text (so as a rule it behaves like an exact rule);
+   "twisted.test.*" matches exactly the names twisted.test.<run without dot>; "twisted.test.**" every extension. *)
+Theorem C13_literal_pattern :
+  forall p n, literal_text p -> (qnmatch n p = Ok true <-> n = p).
+Proof. exact qnmatch_literal. Qed.
+
+Theorem C13_prefix_star :
+  forall p n, literal_text p ->
+    (qnmatch n (p ++ [g_star]) = Ok true <-> exists u, n = p ++ u /\ no_dot u = true).
+Proof. exact qnmatch_prefix_star. Qed.
+
+Theorem C13_prefix_starstar :
+  forall p n, literal_text p ->
+    (qnmatch n (p ++ [g_star; g_star]) = Ok true <-> exists u, n = p ++ u).
+Proof. exact qnmatch_prefix_starstar. Qed.
 
 (* the layers, each for every pattern (no guard needed): what translate writes is the rendering of the lexed pattern *)
 Theorem C13_translate_text :
@@ -104,6 +146,38 @@ Theorem C13_precedence :
     Ok (documented_privacy (text_eqb (o_full o)) (fun m => matches m (o_full o)) rules (default_privacy (o_name o))).
 Proof. exact precedence. Qed.
 
+(* TOTAL characterisation, for EVERY rule list (patterns may be meaningless): the last exact rule if any; otherwise
+   the newest pattern rule that decides -- a rule decides when its pattern is meaningless (then privacyClass raises
+   re.error) or matches the full name (then its level) --; otherwise the default. *)
+Theorem C13_precedence_total :
+  forall (rules : list rule) (o : obj),
+    compute_privacy rules o =
+    verdict_outcome (documented_verdict (text_eqb (o_full o)) wf_pattern (fun m => matches m (o_full o)) rules
+                                        (default_privacy (o_name o))).
+Proof. exact precedence_total. Qed.
+
+(* privacyClass raises exactly when no exact rule decides and some meaningless rule is followed (command-line order)
+   only by meaningful rules that do not match *)
+Theorem C13_privacy_raises_iff :
+  forall rules o,
+    (exists e, compute_privacy rules o = Err e) <->
+    last_rule (text_eqb (o_full o)) rules = None /\
+    exists l1 p m l2, rules = l1 ++ (p, m) :: l2 /\ wf_pattern m = false /\
+                      forall r, In r l2 -> wf_pattern (snd r) = true /\ matches (snd r) (o_full o) = false.
+Proof. exact raises_iff. Qed.
+
+Theorem C13_last_entry_meaning :
+  forall test rules p m,
+    last_entry test rules = Some (p, m) <->
+    exists l1 l2, rules = l1 ++ (p, m) :: l2 /\ test m = true /\ forall r, In r l2 -> test (snd r) = false.
+Proof. exact last_entry_spec. Qed.
+
+Example C13_precedence_total_cases :
+  compute_privacy [(PUBLIC, [42; 42]); (HIDDEN, p_bad)] o_x = Err BadRange /\          (* PUBLIC:**  HIDDEN:[z-a] : reached *)
+  compute_privacy [(HIDDEN, p_bad); (PUBLIC, [42; 42])] o_x = Ok PUBLIC /\            (* HIDDEN:[z-a]  PUBLIC:** : not reached *)
+  compute_privacy [(PRIVATE, n_x); (HIDDEN, p_bad)] o_x = Ok PRIVATE.                  (* exact rule decides first *)
+Proof. vm_compute. repeat split; reflexivity. Qed.
+
 (* an exact rule wins wherever it stands and whatever the pattern rules are (no guard on the patterns) *)
 Theorem C13_exact_beats_patterns :
   forall rules o p, last_rule (text_eqb (o_full o)) rules = Some p -> compute_privacy rules o = Ok p.
@@ -146,6 +220,49 @@ Proof.
   - vm_compute. reflexivity.
 Qed.
 
+(* isVisible / isPrivate are computed from privacyClass each time (nothing is stored on the object); any
+   interleaving of privacyClass, isVisible (with its walk up the parents) and isPrivate queries against one System
+   answers what the uncached definitions answer *)
+Theorem C13_views_cache_transparent :
+  forall opts univ qs,
+    same_key_same_object univ ->
+    (forall q x, In q qs -> In x (query_objs q) -> In x univ) ->
+    run_asks opts [] qs = map (answer_uncached opts) qs.
+Proof.
+  exact (fun opts univ qs Hk Hin => asks_cache_transparent opts univ qs [] Hk (cache_sound_empty opts univ) Hin).
+Qed.
+
+(* visible exactly when the object and every ancestor have a level other than HIDDEN ... *)
+Theorem C13_visible_iff :
+  forall opts ps o,
+    visible_uncached opts o ps = Ok true <->
+    forall x, In x (o :: ps) -> exists p, uncached opts x = Ok p /\ p <> HIDDEN.
+Proof. exact visible_true_iff. Qed.
+
+(* ... and, as the manual says, a hidden module/package/class hides all its members *)
+Theorem C13_hidden_ancestor_hides :
+  forall opts ps o,
+    (forall x, In x (o :: ps) -> exists p, uncached opts x = Ok p) ->
+    (visible_uncached opts o ps = Ok false <-> exists x, In x (o :: ps) /\ uncached opts x = Ok HIDDEN).
+Proof. exact hidden_ancestor_hides. Qed.
+
+Theorem C13_private_iff :
+  forall opts o p,
+    uncached opts o = Ok p ->
+    private_uncached opts o = Ok (negb (priv_eqb p PUBLIC)) /\ (negb (priv_eqb p PUBLIC) = true <-> p <> PUBLIC).
+Proof. exact private_iff. Qed.
+
+Definition o_child : obj := {| o_full := [120; 46; 121]; o_name := [121]; o_has_kind := true; o_is_module := false |}.  (* x.y *)
+Example C13_views_satisfiable :
+  same_key_same_object [o_child; o_x] /\
+  run_asks [(HIDDEN, n_x)] [] [QVisible o_child [o_x]; QPrivacy o_child; QPrivate o_child; QVisible o_x []]
+  = [ABool (Ok false); ALevel (Ok PUBLIC); ABool (Ok false); ABool (Ok false)].
+Proof.
+  split.
+  - intros o1 o2 [<-|[<-|[]]] [<-|[<-|[]]] H; try reflexivity; vm_compute in H; discriminate.
+  - vm_compute. reflexivity.
+Qed.
+
 (* ---------------------------------------------------------------------------------------------------------
    Rule parsing: accepted exactly for <level>:<pattern> with one colon; level stripped, case-insensitive,
    one of HIDDEN PRIVATE PUBLIC (or the compatibility alias VISIBLE = PUBLIC); pattern stripped. *)
@@ -155,6 +272,17 @@ Theorem C13_parse_rule :
     exists a b, v = a ++ c_colon :: b /\ ~ In c_colon a /\ ~ In c_colon b /\
                 level_of_name (upper (strip a)) p /\ m = strip b.
 Proof. exact parse_rule. Qed.
+
+(* the two error(...) exits: "malformatted value" exactly when the value is not <a>:<b> with one colon;
+   "unknown privacy value <a>" exactly when it is and the stripped, upper-cased <a> is no level name *)
+Theorem C13_parse_rule_errors :
+  forall v,
+    match parse_privacy_tuple_result v with
+    | ParsedRule (p, m) => exists a b, one_colon v a b /\ level_of_name (upper (strip a)) p /\ m = strip b
+    | UnknownLevel a => exists b, one_colon v a b /\ forall p, ~ level_of_name (upper (strip a)) p
+    | Malformatted => forall a b, ~ one_colon v a b
+    end.
+Proof. exact parse_result_spec. Qed.
 
 Example C13_parse_rule_cases :
   parse_privacy_tuple [32; 112; 117; 66; 108; 105; 99; 32; 58; 32; 97; 42; 32] = Some (PUBLIC, [97; 42]) /\   (* " puBlic : a* " *)
